@@ -48,11 +48,50 @@ class RealClockRead(BaseException):
 # values
 # ----------------------------------------------------------------------------------------------
 
+class EqNone:
+    """a "null object": an ordinary item that compares equal to None"""
+    def __eq__(self, o):
+        return o is None or isinstance(o, EqNone)
+
+    def __hash__(self):
+        return 0
+
+    def __repr__(self):
+        return 'EqNone()'
+
+
+class _Ambiguous:
+    def __bool__(self):
+        raise ValueError('the truth value of an element-wise comparison is ambiguous')
+
+
+class Vec:
+    """array-like item: `==` is element-wise and its result has no truth value (as for numpy arrays)"""
+    def __eq__(self, o):
+        return _Ambiguous()
+
+    __hash__ = None
+
+    def __repr__(self):
+        return 'Vec()'
+
+
+def mat(v):
+    """case value -> the object that is put: ['@', kind] stands for an item with an overloaded `==`"""
+    if isinstance(v, list) and len(v) == 2 and v[0] == '@':
+        return EqNone() if v[1] == 'eqnone' else Vec()
+    return v
+
+
 def enc(v):
     """Python value -> model item: 'N' for None, otherwise a natural number per `==` class
     (5 == 5.0, True == 1; strings get codes >= 1000)."""
     if v is None:
         return 'N'
+    if isinstance(v, EqNone):
+        return 2001
+    if isinstance(v, Vec):
+        return 2002
     if isinstance(v, str):
         return _STR[v]
     return int(v)
@@ -60,6 +99,8 @@ def enc(v):
 
 def is_end(v, end):
     """what the property calls "the end marker": `is None` by default, `==` for a custom marker"""
+    if isinstance(v, list):
+        return False          # ['@', kind]: an item object (generated under the default marker only)
     return (v is None) if end is None else (v == end)
 
 
@@ -89,6 +130,10 @@ def gen_case(rng: random.Random, tier: str, bias: str = ''):
         r = rng.random()
         if end is not None and r < 0.12:
             return None                      # None is an ordinary item under a custom marker
+        if end is None and r < 0.1:
+            # under the default marker the end is recognised by identity: items whose `==` is overloaded
+            # (equal to None; element-wise without a truth value) are ordinary items
+            return ['@', rng.choice(['eqnone', 'vec'])]
         if r < 0.2:
             return rng.choice(['a', 'None', 3.0, 12.0, False])
         return rng.randrange(1, 20)
@@ -233,6 +278,7 @@ def run_case(case):
 
 
 def _run(case):
+    case = dict(case, arrivals=[[t, mat(v)] for t, v in case['arrivals']])
     U = 2.0 ** -case['ulog']
     ev = []
     end = case['end']
